@@ -22,6 +22,11 @@ def f_reverse(x):
     return x[::-1].copy()
 
 
+def f_keep(x):
+    """An identity filter: hands the series back as it is (same values, same dtype)."""
+    return x
+
+
 def f_cumsum(x):
     return np.cumsum(x) / max(1, len(x))
 
@@ -32,7 +37,7 @@ def f_hp(x):
     return hp_cycle_lamb1600_filter(x)
 
 
-FILTERS = {"none": None, "demean": f_demean, "diffpad": f_diffpad, "double": f_double, "reverse": f_reverse,
+FILTERS = {"none": None, "keep": f_keep, "demean": f_demean, "diffpad": f_diffpad, "double": f_double, "reverse": f_reverse,
            "cumsum": f_cumsum, "hp": f_hp}
 
 
@@ -102,8 +107,13 @@ dyadic = st.integers(-128, 128).map(lambda k: k / 8.0)
 
 @st.composite
 def series_spec(draw, n, positive=False):
-    kind = draw(st.sampled_from(["dyadic", "float", "walk", "const", "dyadic", "float"]))
+    kind = draw(st.sampled_from(["dyadic", "float", "walk", "const", "dyadic", "float", "drift"]))
     m = min(n, 24)
+    if kind == "drift":
+        # a level series with almost constant increments (counters, time stamps): increments 1 + jitter * u_t
+        vals = draw(st.lists(st.floats(-1, 1, allow_nan=False, width=32), min_size=m, max_size=m))
+        return {"kind": kind, "vals": vals, "scale": draw(st.sampled_from([1.0, 1e-3, 86400.0, 1e7])),
+                "off": draw(st.sampled_from([0.0, 50.0, 1.7e9])), "jitter": draw(st.sampled_from([1e-2, 1e-4, 1e-5, 3e-6]))}
     if kind == "dyadic":
         vals = draw(st.lists(dyadic, min_size=m, max_size=m))
         scale = 1.0
@@ -119,6 +129,8 @@ def series_spec(draw, n, positive=False):
 
 def build_series(spec, n):
     v = np.resize(np.array(spec["vals"], dtype=float), n)
+    if spec["kind"] == "drift":
+        return spec["off"] + spec["scale"] * np.cumsum(1.0 + spec["jitter"] * v)
     if spec["kind"] == "walk":
         v = np.cumsum(v)
     return spec["off"] + spec["scale"] * v
@@ -136,7 +148,9 @@ def data_spec(draw, e=None, n=None, d=None, max_n=64, min_n=2, sim_n=None):
     if sn == n and draw(st.integers(0, 5)) == 0:
         sim[draw(st.integers(0, e - 1))] = [dict(r) for r in real]
     # data may arrive as integer arrays (counts): same values, another dtype
-    return {"E": e, "N": n, "SN": sn, "D": d, "sim": sim, "real": real, "int_data": draw(st.integers(0, 7)) == 0}
+    # memory layout of the arrays handed to the loss: C order, Fortran order, or a transposed view
+    return {"E": e, "N": n, "SN": sn, "D": d, "sim": sim, "real": real, "int_data": draw(st.integers(0, 7)) == 0,
+            "layout": draw(st.sampled_from(["C", "C", "C", "F", "T"]))}
 
 
 def build_data(ds):
@@ -145,7 +159,22 @@ def build_data(ds):
     if ds.get("int_data"):
         with np.errstate(all="ignore"):
             sim, real = np.rint(np.clip(sim * 4, -1e9, 1e9)).astype(np.int64), np.rint(np.clip(real * 4, -1e9, 1e9)).astype(np.int64)
-    return sim, real
+    return relayout(sim, ds.get("layout", "C")), relayout(real, ds.get("layout", "C"))
+
+
+def relayout(a, layout):
+    """The same numbers and shape in another memory layout."""
+    if layout == "F":
+        return np.asfortranarray(a)
+    if layout == "T":
+        axes = tuple(reversed(range(a.ndim)))
+        return np.ascontiguousarray(a.transpose(axes)).transpose(axes)
+    return a
+
+
+def kcopy(a):
+    """A copy that keeps the memory layout (ndarray.copy() alone would normalise it to C order)."""
+    return np.array(a, order="K", copy=True)
 
 
 # ---- loss specs ------------------------------------------------------------------------------------------------------
@@ -158,7 +187,7 @@ def weights_spec(draw, d, allow_none=True, extreme=False):
 
 
 @st.composite
-def filters_spec(draw, d, allow_none=True, names=("none", "demean", "diffpad", "double", "reverse", "cumsum", "hp")):
+def filters_spec(draw, d, allow_none=True, names=("none", "keep", "demean", "diffpad", "double", "reverse", "cumsum", "hp")):
     if allow_none and draw(st.integers(0, 2)) == 0:
         return None
     return draw(st.lists(st.sampled_from(list(names)), min_size=d, max_size=d))
@@ -169,8 +198,8 @@ def loss_spec(draw, d, n, kind=None, nonneg_weights=True):
     kind = kind or draw(st.sampled_from(["minkowski", "msm", "fourier", "gsl", "likelihood"]))
     spec = {"kind": kind, "weights": draw(weights_spec(d, extreme=not nonneg_weights)),
             "weights_as": draw(st.sampled_from(["float", "float", "int", "bool", "list"])),
-            "filters": draw(filters_spec(d, names=("none", "demean", "diffpad", "double", "reverse", "cumsum")
-                                         if n < 3 else ("none", "demean", "diffpad", "double", "reverse", "cumsum", "hp")))}
+            "filters": draw(filters_spec(d, names=("none", "keep", "demean", "diffpad", "double", "reverse", "cumsum")
+                                         if n < 3 else ("none", "keep", "demean", "diffpad", "double", "reverse", "cumsum", "hp")))}
     if kind == "minkowski":
         spec["p"] = draw(st.sampled_from([1, 2, 3, 1.5, 4, 0.5, 2.0]))
     elif kind == "msm":
